@@ -135,6 +135,8 @@ unique_ptr<DiscreteDistributionInterface> BppODiscreteDistributionFormat::readDi
     vector<unique_ptr<DiscreteDistributionInterface>> v_pdd;
     unique_ptr<DiscreteDistributionInterface> pdd;
     string rf = args["probas"];
+    if (rf.size() < 2)
+      throw Exception("Argument 'probas' of the Mixture distribution must be a bracketed list.");
     StringTokenizer strtok2(rf.substr(1, rf.length() - 2), ",");
     while (strtok2.hasMoreToken())
       probas.push_back(TextTools::toDouble(strtok2.nextToken()));
